@@ -862,7 +862,7 @@ func (h *SexpHash) nestedPathGetSet(env *Zlisp, dotpaths []string, setVal *Sexp)
 			//P("\n found hash in h2 at i=%d, looping to next i\n", i)
 			askh = x
 		case *Stack:
-			return x.nestedPathGetSet(env, dotpaths[1:], setVal)
+			return x.nestedPathGetSet(env, dotpaths[i+1:], setVal)
 			//		case *SexpReflect:
 			//			// at least allow reading, if we can.
 			//			P("hashutils DEBUG! SexpReflect value x is type: '%v', '%T'", x.Val.Type(), x.Val.Interface())
